@@ -27,8 +27,14 @@ def merge_files(file_name, label, chr_ids, merged_file_handler, copy_header=True
         if not os.path.exists(file_name): continue
         header_count = 0
         with open(file_name, 'r') as f:
-            while f.readline().startswith("#"):
+            for line in f:
+                if not line.startswith("#"):
+                    break
                 header_count += 1
+                if "\t" in line:
+                    # the column title line ends the header, the next line is data even if it
+                    # starts with '#' (e.g. a read id)
+                    break
         with open(file_name, 'rt') as f:
             if not (copy_header and i == 0):
                 for j in range(header_count):
